@@ -23,7 +23,7 @@ type Engine struct{}
 func (e *Engine) Name() string { return "repsim" }
 
 func init() {
-	sim.Register(&Engine{}, "C01", "C02", "C03", "C04", "C05", "C09", "C10", "C11", "C12", "C14")
+	sim.Register(&Engine{}, "C01", "C02", "C03", "C04", "C05", "C09", "C10", "C11", "C12", "C14", "C15")
 }
 
 const baseWall = 1_700_000_000
@@ -257,6 +257,11 @@ func (x *run) setup() error {
 				}
 			}
 		}
+		if x.on("C15") {
+			if err := x.prepareHost(rs, i); err != nil {
+				return fmt.Errorf("prepare host repository: %w", err)
+			}
+		}
 		x.w.Log.EndStep("setup "+r.Name, true)
 	}
 	return nil
@@ -396,9 +401,17 @@ func (x *run) execStep(s *sim.Step) {
 		return
 	}
 	pre := x.observe(rs)
+	var hostBefore *hostSnap
+	if x.on("C15") {
+		hostBefore = x.hostSnapshot(rs)
+	}
 	err := x.doStep(rs, s, pre)
+	if hostBefore != nil && !rs.wiped {
+		x.hostCompare(rs, hostBefore, x.hostSnapshot(rs), fmt.Sprintf("step %s %s", s.Op, s.K))
+		x.ntProbes["host"] = true
+	}
 	switch s.Op {
-	case "pull", "merge", "fetch", "restart", "delclocks", "losecache", "remove", "wipe":
+	case "pull", "merge", "fetch", "restart", "delclocks", "losecache", "remove", "wipe", "cli":
 		concurrent = true
 	}
 	if err == nil {
@@ -442,6 +455,8 @@ func (x *run) doStep(rs *repState, s *sim.Step, pre *obs) error {
 		}
 	case "wipe":
 		err = x.guard("wipe", func() error { return x.stepWipe(rs, s) })
+	case "cli":
+		err = x.guard("cli", func() error { return x.stepCLI(rs, s) })
 	case "losecache":
 		err = x.guard("reopen", func() error { return x.stepLoseCache(rs, s) })
 	case "restart":
@@ -1292,6 +1307,8 @@ func (x *run) nontrivial() bool {
 		return n["interp"]
 	case "C14":
 		return n["removed"]
+	case "C15":
+		return n["host"]
 	case "C11":
 		return n["rebuild"]
 	case "C12":
